@@ -95,7 +95,8 @@ class BaseSQLURLTable(BaseURLTable):
             query = insert(QueuedURL).prefix_with('OR IGNORE').values(bind_values)
 
             all_row_values = []
-            column_names = set()
+            # The insert statement always binds these two
+            column_names = set(['parent_url', 'root_url'])
 
             for url, url_properties, url_data in new_urls:
                 row_values = {
